@@ -12,10 +12,10 @@ are regenerated from the Python source on every run:
 * `parseLines_lossless`: the full texts of the lines yielded by `parseLines`, in order,
   concatenate to the source from the starting offset, and the loop stops at the end of the source.
 
-The idempotence of normalisation and the self-validation of rendered checksums are decided by the
-correspondence suite `parser` plus the oracle search (they re-parse text produced from arbitrary
-parameter strings, which would need the completeness direction of the matcher for the parameter
-grammar); see `DESIGN.md`. -/
+The idempotence of normalisation and the self-validation of rendered checksums are proved in
+`ERP/Properties/C18Idem.lean` for commands with plain parameters (no backslash escapes) by exact
+evaluation of the line regex; escaped parameters are decided by the correspondence suite `parser`
+plus the oracle search; see `DESIGN.md`. -/
 namespace ERP.C18
 open ERP ERP.Rx
 
